@@ -362,14 +362,16 @@ class Cmd:
             m2 = re.match(r"^(\S*)(.*)$", t, re.S)
             return m2.group(1), m2.group(2)
 
-        # delayed expansion happens before the comparison is parsed
-        text = self.delayed(self.subst_for(text, forvals))
+        # the comparison is parsed first (the operands are the tokens of the line as written), then every token is expanded once;
+        # the command behind the comparison is expanded when it runs, not here
+        text = self.subst_for(text, forvals)
         a, rest = operand(text)
         m = re.match(r"^\s*(equ|neq|lss|leq|gtr|geq)\s+(.*)$", rest, re.S | re.I)
         if not m:
             raise Stuck("IF syntax: %r" % text)
         op = m.group(1).lower()
         b, rest = operand(m.group(2))
+        a, b = self.delayed(a), self.delayed(b)
         if is_int(a) and is_int(b):
             x, y = wrap32(int(a)), wrap32(int(b))
         else:
